@@ -250,6 +250,20 @@ CLAIMED["C15"] = (
     "TLC/SANY; tokens stand for concrete border / attribute-set values compared attribute by attribute; the named styles of a reopened document "
     "are re-read (an unused style keeps only what the file stores for it)",
     "DESIGN.md §4 C15")
+CLAIMED["C09"] = (
+    "TLC model checking of Refs.tla (namespaces of sheets and table names, the qualifier reading rules, the prefix chooser of expand_ref; "
+    "ExactlyTheTarget on every namespace, mutant refuted); every TLC namespace built through the API with stored references injected as real "
+    "AST nodes, printed by Cell.formula on the open document and after save/reopen, judged by TLC (Trace_Refs)",
+    "Refs.tla states how a printed qualifier is read with the document's own names (none: the host table; T:: the table T of the host sheet, "
+    "else the tables named T anywhere; S::T:: that table) and checks that the library's prefix choice resolves to exactly the stored target for "
+    "every assignment of table names to 1..3 sheets x 1..2 tables, every host and target; dropping the sheet prefix for a shared name is refuted. "
+    "For each namespace (and seeded larger ones) cell, rectangle, row-span and column-span references with every absolute/relative combination "
+    "are injected at varying host cells (cross-table ones with the target's UUID); the printed text is split into qualifiers and body, and TLC "
+    "checks the body against the stored ends resolved from the host cell ('$' exactly on the absolute ends, ends not swapped) and resolves the "
+    "qualifiers in the namespace the library reports.",
+    "TLC/SANY; tables without header rows/columns (A1 bodies); header-label bodies and their scoping are not judged (see DESIGN.md); mixed "
+    "absolute/relative range ends stored as the library's reader and writer agree",
+    "DESIGN.md §4 C09")
 NOT_YET = "check not built yet in this round (planned: see DESIGN.md section for this property)"
 NA = {}
 
